@@ -51,7 +51,7 @@ Tactic Notation "bridge" constr(k) :=
   intros; unfold k;
   cbv beta delta [bind validate_slice absolute_slice insert_ overwrite_ delete_ truncateleft truncateright ilshift_ irshift_
                   ba_insert ba_overwrite ror_msb0 rol_msb0 ba_ror ba_rol ba_reverse bs_ilshift bs_irshift ba_imul slice_ reversebytes
-                  indices offset_slice_indices_lsb0
+                  indices offset_slice_indices_lsb0 bs_lshift bs_rshift bs_add
                   unst set_pos set_bytepos get_bytepos bytealign st_clear st_append st_prepend st_insert st_overwrite st_delitem_slice st_delitem_int
                   on_content keep_pos reset_if_len_changed ba_append ba_prepend ba_delitem_int ba_delitem_slice sbits spos fst snd];
   bridge_core.
